@@ -125,7 +125,8 @@ def l102(ticks, quick):
         if peer is None:
             continue
         for p in peer.sent_payloads:
-            n = sum(1 for e in ev if e[0] == 'message' and (e[3] is p or (rope.isrope(e[3]) and rope.isrope(p) and rope.full_view_blob(e[3]) is rope.full_view_blob(p))))
+            n = sum(1 for e in ev if e[0] == 'message' and (e[3] is p or (rope.isrope(e[3]) and rope.isrope(p) and rope.full_view_blob(e[3]) is rope.full_view_blob(p))
+                                                          or (isinstance(p, bytes) and isinstance(e[3], bytes) and e[3] == p and e[1].addr == peer.addr)))
             check(n <= 1, 'each message is handed to the handler at most once')
     # connect only after a completed handshake: the client object holds the key the peer derived
     for e in ev:
